@@ -26,6 +26,9 @@ class Unsupported(Exception):
     pass
 
 
+CONTINUE, RESTART = object(), object()
+
+
 class PyRaise:
     def __init__(self, exc, node=None):
         self.exc, self.node = exc, node
@@ -576,6 +579,23 @@ class Exec:
             if not stmts:
                 return k(env, path)
             s, rest = stmts[0], stmts[1:]
+            try:
+                r_ = self.stmt(s, rest, env, path, outs, k)
+            except CalleeRaises as cr:
+                # every path of a callee raised: the exception propagates out of this function (no try/except is modelled)
+                outs.append(Out(path, cr.exc if isinstance(cr.exc, PyRaise) else PyRaise(str(cr.exc)), env))
+                return
+            if r_ is not CONTINUE:
+                if isinstance(r_, tuple) and r_ and r_[0] is RESTART:
+                    stmts = r_[1]
+                    continue
+                return r_
+            stmts = rest
+
+    def stmt(self, s, rest, env, path, outs, k):
+        """executes one statement; returns CONTINUE to go on with `rest`, (RESTART, stmts) to continue with another list,
+        anything else is the result of the block (the continuation has been taken)"""
+        if True:
             if isinstance(s, ast.Expr):
                 if not isinstance(s.value, ast.Constant):
                     self.ev(s.value, env, path)
@@ -626,8 +646,7 @@ class Exec:
                 if isinstance(c, (list, tuple, dict, set, str)) or c is None:
                     c = bool(c)
                 if not is_sym(c):
-                    stmts = (s.body if c else s.orelse) + rest
-                    continue
+                    return (RESTART, (s.body if c else s.orelse) + rest)
                 for cond, body in ((c, s.body), (Not(c), s.orelse)):
                     if not self.feasible(path, cond):
                         continue
@@ -650,7 +669,7 @@ class Exec:
                     raise Unsupported(f"try statement line {s.lineno}")
             else:
                 raise Unsupported(f"{type(s).__name__} line {getattr(s, 'lineno', '?')}")
-            stmts = rest
+            return CONTINUE
 
     def exc_name(self, e):
         if e is None:
